@@ -158,9 +158,17 @@ def job(payload):
         # an ar archive: one Dwarf value made of several modules (members whose units end in partial units, or are DIE-less, in the middle)
         import subprocess
         os.makedirs(os.path.join(common.RUN, "forests"), exist_ok=True)
-        p = os.path.join(common.RUN, "forests", "c05-%s.a" % "-".join(os.path.basename(m)[:8] for m in arg))
+        adir = os.path.join(common.RUN, "forests", "c05-ar-%s" % "-".join(os.path.basename(m)[:8] for m in arg))
+        os.makedirs(adir, exist_ok=True)
+        p = os.path.join(adir, "members.a")
         if os.path.exists(p):
             os.unlink(p)
+        # supplementary (dwz) files are looked up next to the archive
+        from vf import dwdump
+        for m in arg:
+            alt = dwdump.altlink(m)
+            if alt and not alt.startswith("missing:") and not os.path.exists(os.path.join(adir, os.path.basename(alt))):
+                os.symlink(alt, os.path.join(adir, os.path.basename(alt)))
         if subprocess.run(["ar", "rcs", p] + list(arg), stdout=subprocess.PIPE, stderr=subprocess.PIPE).returncode == 0:
             paths = [(p, True)]
             out["archives"] = 1
@@ -181,6 +189,9 @@ def job(payload):
             out["bad"] += bad[:5]
         if tmp and not out["bad"]:
             os.unlink(p)
+            if kind == "archive":
+                import shutil
+                shutil.rmtree(os.path.dirname(p), ignore_errors=True)
         if len(out["samples"]) < 1:
             out["samples"].append(dict(file=os.path.basename(p), dies=out["dies"]))
     out["bad"] = out["bad"][:30]
